@@ -434,6 +434,17 @@ func (rm *room) joinRuleContent(jr string) map[string]any {
 				allow = append(allow, map[string]any{"type": "m.room_membership", "room_id": "not-a-room-id"})
 			}
 		}
+		if rm.t.Chance(150) {
+			// the entry naming the room users really come from is of a type
+			// this library does not know (or has none): it admits nobody
+			first := allow[0].(map[string]any)
+			if rm.t.Bool() {
+				first["type"] = "org.example.some_future_rule"
+			} else {
+				delete(first, "type")
+			}
+			rm.r.Probe("allow_entry_for_the_real_room_is_of_unknown_type")
+		}
 		if len(allow) > 1 && rm.t.Bool() {
 			allow[0], allow[len(allow)-1] = allow[len(allow)-1], allow[0]
 		}
